@@ -16,13 +16,14 @@ class C09(Prop):
     id = "C09"
     title = "No event history or failing task takes the driver down"
     lean_modules = ["NV.C09.Props", "NV.C09.Witness"]
-    theorems = ["NV.C09.backend_total", "NV.C09.backend_total_prefix", "NV.C09.freed_conn_never_used_run",
+    theorems = ["NV.C09.judge_crash_clause", "NV.C09.judge_report_clause", "NV.C09.judge_exit_present",
+                "NV.C09.runFull_trext", "NV.C09.backend_total", "NV.C09.backend_total_prefix", "NV.C09.freed_conn_never_used_run",
                 "NV.C09.hooks_keep_invariant", "NV.C09.runHook_ok", "NV.C09.errorHandler_same", "NV.C09.cmh_flags",
                 "NV.C09.only_failing_hb_removed", "NV.C09.error_keeps_other_heart_beats",
                 "NV.C09.flags_clear_after_error", "NV.C09.pending_tasks_preserved",
                 "NV.C09.recover_preserves_pending", "NV.C09.callout_sweep_continues_after_error",
                 "NV.C09.freed_conn_never_used", "NV.C09.idle_tick_no_crash"]
-    witness_theorems = ["NV.C09.connect_error_leaks_record"]
+    witness_theorems = ["NV.C09.connect_error_releases_record"]
     consts = [("logCatches", "NV_LOG_CATCHES"), ("numConsts", "5")]
     const_headers = ["lib/efuns/options.h"]
     const_prelude = "#ifdef LOG_CATCHES\n#define NV_LOG_CATCHES 1\n#else\n#define NV_LOG_CATCHES 0\n#endif\n"
@@ -48,8 +49,9 @@ class C09(Prop):
                   "memory errors inside arbitrary failing tasks, real signal delivery, the OS, epoll event ordering with "
                   "several simultaneous events, the address-server pipe, LPC sockets, ed, snoop, exec() are not modelled "
                   "(ASan/UBSan observe the real runs)")
-    rule = ("cases = corpus + known-finding inputs + boundary list + seeded random histories: per backend cycle at most one "
-            "I/O event (connect / 1-3 complete or partial lines / close / console line) and an optional timer tick; "
+    rule = ("cases = corpus + known-finding inputs + boundary list + seeded random histories: per backend cycle one or two "
+            "I/O events on different connections (connect / 1-3 complete or partial lines, some very long / close / "
+            "console line; console and network users together) and an optional timer tick; "
             "scripts inject ok / uncaught error / caught error / destruct (self, other user, other object) / call_out / "
             "heart-beat switch / master-handler switch into logon, process_input, command, net_dead, heart_beat, call_out, "
             "reset and connect; both modes; three master error_handler behaviours; a case is non-trivial when its trace "
@@ -72,6 +74,11 @@ class C09(Prop):
         if not m:
             raise X.TieBroken("look_for_objects_to_swap:period", "cannot locate the sweep period in look_for_objects_to_swap()")
         period = int(m.group(1)) * int(m.group(2))
+        sim = open(os.path.join(E.REPO, "src/simulate.c")).read()
+        m = re.search(r"#define\s+MAX_VERB_BUFF\s+(\d+)", sim)
+        if not m:
+            raise X.TieBroken("user_parser:MAX_VERB_BUFF", "cannot locate MAX_VERB_BUFF in simulate.c")
+        verbbuf = int(m.group(1))
         # shape guards of the repaired code: the model mirrors these forms
         guards = [
             (r"if\s*\(\s*all_users\s*&&\s*all_users\s*\[\s*0\s*\]\s*\)\s*\n\s*flush_message", comm, "process_io:all_users guard"),
@@ -79,12 +86,14 @@ class C09(Prop):
             (r"if\s*\(\s*setjmp\s*\(\s*econ\.context\s*\)\s*\)\s*\n\s*restore_context\s*\(&econ\);[^;]*?if\s*\(\s*startup_step\s*==\s*0\s*\)",
              back, "backend:recovery point before the start-up steps"),
             (r"if\s*\(\s*duration\s*<\s*0\s*\)", back, "update_load_av:clamp"),
+            (r"ret\s*=\s*safe_apply_master_ob\s*\(\s*APPLY_CONNECT", back, "mudlib_connect:connect under its own recovery point"),
         ]
         flags = []
         for rx, src, name in guards:
             flags.append((name, 1 if re.search(rx, src) else 0))
         t = "/-- all_users grows by this many slots (literal in new_interactive) -/\ndef userChunk : Nat := %d\n\n" % chunk
         t += "/-- look_for_objects_to_swap period in seconds (literal) -/\ndef sweepPeriod : Nat := %d\n\n" % period
+        t += "/-- MAX_VERB_BUFF of user_parser() (literal in simulate.c) -/\ndef maxVerbBuff : Nat := %d\n\n" % verbbuf
         t += "/-- ResetDuration of the verification configuration -/\ndef resetDuration : Nat := %d\n\n" % RESET_DURATION
         for name, v in flags:
             ident = re.sub(r"[^A-Za-z0-9]", "_", name)
@@ -192,6 +201,7 @@ class C09(Prop):
         return ";".join(ops)
 
     def gen_case(self, rng, cid):
+        self._long_used = False
         console = rng.chance(35, 100)
         lines = ["mode console" if console else "mode net", "meh " + rng.weighted([("ok", 5), ("raise", 3), ("recurse", 3)])]
         nobjs = rng.weighted([(0, 2), (1, 3), (2, 3), (3, 2)])
@@ -247,6 +257,26 @@ class C09(Prop):
                 acts.append("cin:" + t)
             elif k == "idle":
                 acts.append("idle")
+            # several events reported by one poll: a second I/O action on ANOTHER client in the same step
+            # (only input + input: buffering two connections commutes, so the kernel's event order cannot matter;
+            #  an accept or a close can run LPC code, which makes the order observable)
+            if acts and k in ("send", "cin") and rng.chance(25, 100):
+                busy = set(int(a.split(":")[1][1:]) for a in acts if a.split(":")[0] in ("send", "close", "conn"))
+                others = [c for c in open_c if c not in busy]
+                k2 = rng.weighted([("send", 6 if others else 0), ("cin", 3 if console and k != "cin" else 0), ("none", 1)])
+                if k2 == "send":
+                    c = rng.choice(others)
+                    t = self.gen_text(rng, verbs)
+                    sent[c] = sent.get(c, 0) + t.count("/")
+                    acts.append("send:c%d:%s" % (c, t))
+                elif k2 == "close":
+                    c = rng.choice(others)
+                    open_c.remove(c)
+                    acts.append("close:c%d" % c)
+                elif k2 == "cin":
+                    t = self.gen_text(rng, verbs, partial_ok=False)
+                    sent[0] = sent.get(0, 0) + t.count("/")
+                    acts.append("cin:" + t)
             if rng.chance(35, 100) or not acts:
                 acts.append(rng.weighted([("tick", 12), ("tick:1", 3), ("tick:5", 2), ("tick:1000", 2)]))
             lines.append("step " + " ".join(acts))
@@ -257,6 +287,11 @@ class C09(Prop):
     def gen_text(self, rng, verbs, partial_ok=True):
         n = rng.weighted([(1, 6), (2, 3), (3, 1)])
         t = "".join(rng.choice(verbs) + "/" for _ in range(n))
+        if rng.chance(4, 100) and not getattr(self, "_long_used", False):
+            # one very long line per case (verb longer than MAX_VERB_BUFF); more would fill the 2 KB input buffer,
+            # whose compaction / discard rules are property C13's subject
+            self._long_used = True
+            t += "L" * rng.choice([120, 250]) + "/"
         if partial_ok and rng.chance(15, 100):
             t += rng.choice(["pa", "q"])        # partial line, completed (or not) by a later packet
         return t
